@@ -17,7 +17,7 @@ _NOTE = ("Trusted: Kani 0.68/CBMC 6.11 and the rustc->goto translation, Verus/Z3
          "(K-callee stubs) are listed per unit in the evidence file. Dev profile only; termination not proved by Kani.")
 
 CLAIMS = {
-    "C01": dict(technique="deductive contracts: Verus on extracted accounting predicates; Kani K-full on ConstructionStatistics::record_insertion",
+    "C01": dict(technique="deductive contracts: Verus on extracted accounting predicates; Kani K-full on ConstructionStatistics::record_insertion; Kani K-slices of the acceptance gates of the retry wrappers",
                 text="PARTIAL proof: the accounting lemma behind 'reported inserted count = vertices present' (exactly one of inserted/skipped_duplicate/skipped_degeneracy grows by one per recorded insertion, chosen by the result; success XOR skipped). The geometric half (cells are Delaunay, certification gate behind Instant::now) is undecided. Added: both acceptance gates of build_with_shuffled_retries let a candidate out iff the brute-force empty-circumsphere check accepted it (K-slices of the two match expressions).",
                 note=_NOTE),
     "C02": dict(technique="deductive contracts: Verus decision tables + Kani caller-against-callee-contracts on validate_after_insertion",
@@ -32,31 +32,31 @@ CLAIMS = {
     "C15": dict(technique="deductive contracts: Verus on expected_chi_for; Kani K-full on euler_characteristic",
                 text="PARTIAL proof: the Euler alternating sum and the expected-chi table (ball -> 1, closed sphere -> 1+(-1)^d). Adjacency queries over the storage code are undecided.",
                 note=_NOTE),
-    "C17": dict(technique="deductive contracts: Kani K-full over all pairs of grid cells on the private Hilbert transform",
+    "C17": dict(technique="deductive contracts: Kani K-full over all pairs of grid cells on the private Hilbert transform; Kani K-callee on the dedup fallbacks",
                 text="Proof per instance (D, bits): hilbert_index_from_quantized is injective with range [0, 2^(D*bits)) (hence bijective) and consecutive indices are L1-adjacent, for ALL grid cells of each listed instance. 'For all bits' is not claimed; dedup/ordering fragments are bounded (N <= 4) and labelled so. Added: the hash-grid dedup helpers hand over to the grid-free fallback whenever the grid cannot key every vertex (2 vertices, bounded).",
                 note=_NOTE),
-    "C03": dict(technique="deductive contracts: Kani caller-against-callee-contracts (rollback postcondition `Err => state tag unchanged` for every callee outcome sequence)",
+    "C03": dict(technique="deductive contracts: Kani caller-against-callee-contracts (rollback postcondition `Err => state tag unchanged` for every callee outcome sequence); Kani K-slices (verbatim statements, abstracted regions) on the fan-path rollback",
                 text="PARTIAL proof: `Err => triangulation unchanged` on the flip-repair wrapper (repair_delaunay_with_flips_k2_k3 and the public repair_delaunay_with_flips) and on DelaunayTriangulation::remove_vertex, for EVERY sequence of callee outcomes (every internal failure point), with the state modelled by a ghost tag inside the real Tds. The insertion wrappers (InsertionError does not fit CBMC), the fan-retriangulation closure and the rollback inside apply_bistellar_flip are NOT under contract. Added: the fan path of Triangulation::remove_vertex restores its snapshot whatever the (abstracted) retriangulation did before failing (K-slice with an abstracted region).",
                 note=_NOTE),
-    "C04": dict(technique="deductive contracts: Kani caller-against-callee-contracts on the Level-4 entry points; Verus on the extracted violation formula (V-slice)",
+    "C04": dict(technique="deductive contracts: Kani caller-against-callee-contracts on the Level-4 entry points; Verus on the extracted violation formula (V-slice); Kani K-callee on the k=2 verifier pass",
                 text="PARTIAL proof: verdict plumbing - is_valid is Err exactly when the flip-predicate verifier reports a violation, validate == Levels 1-3 && Level 4; the k=2 violation formula (violates <=> an apex strictly inside, minus the D>=4 both-positive artefact). Agreement of kernel signs with exact arithmetic is not decidable here (floating point).",
                 note=_NOTE),
     "C05": dict(technique="deductive contracts: Kani caller-against-callee-contracts (each level's validator == conjunction of its invariants); Kani K-full on element validity",
                 text="PARTIAL proof: Tds::is_valid == conjunction of its nine invariants (fast-fail order), Triangulation::is_valid == conjunction of its eight invariants with guarantee-dependent link checks, validate == L1-2 && L3 && completion check, report <=> validate; element level: Vertex::is_valid <=> finite coordinates and v4 UUID for every f64 tuple and 128-bit UUID. That each sub-validator's BODY detects its fault class on arbitrary complexes is storage code and undecided.",
                 note=_NOTE),
-    "C06": dict(technique="deductive contracts: Kani caller-against-callee-contracts on DelaunayTriangulation::remove_vertex; Verus/Kani on the repair decision",
+    "C06": dict(technique="deductive contracts: Kani caller-against-callee-contracts on DelaunayTriangulation::remove_vertex; Verus/Kani on the repair decision; Kani K-slices on the fan path of Triangulation::remove_vertex",
                 text="PARTIAL proof: unknown vertex => Ok(0) and nothing touched; Ok(n) reports the count of the path that ran; repair runs iff the policy says so; Err => unchanged. Validity of the fan retriangulation itself is undecided (storage code). Added: fan path - success <=> every finalisation step incl. the GLOBAL geometric-orientation validation succeeded, and the rollback protocol around the retriangulation (K-slices; fan construction and the facet-issue repair branch abstracted).",
                 note=_NOTE),
     "C09": dict(technique="deductive contracts: Kani caller-against-callee-contracts on index coherence; dedup greedy-filter contract under an arbitrary duplicate relation",
                 text="PARTIAL proof: a vertex that enters through the Edit API drops the duplicate index (so the next insert re-seeds it from all vertices); mutable accessors drop it; batch dedup functions equal the greedy filter for every duplicate relation (N <= 4, bounded). insert_transactional's own index update and the UUID map are not under contract.",
                 note=_NOTE),
-    "C11": dict(technique="deductive contracts: Kani caller-against-callee-contracts, one hull query per harness, all pairs of generations",
+    "C11": dict(technique="deductive contracts: Kani caller-against-callee-contracts, one hull query per harness, all pairs of generations; Kani K-full on snapshot/generation sharing",
                 text="PARTIAL proof: every hull query refuses a hull whose triangulation generation differs from its creation generation, before any cache build or facet access; validity predicate <=> equality; generation bumps are exactly +1. That every mutator bumps (storage code) and that the facets are the geometric hull are undecided. Added: a Tds snapshot (clone) shares the generation counter, so bumps made by a failed operation survive the rollback.",
                 note=_NOTE),
-    "C14": dict(technique="deductive contracts: Kani K-full comparator lemmas over all f64; K-callee on the Hilbert ordering with an arbitrary grid-cell function",
+    "C14": dict(technique="deductive contracts: Kani K-full comparator lemmas over all f64; K-callee on the Hilbert ordering with an arbitrary grid-cell function; Kani K-slice on the two retry wrappers (same seed schedule)",
                 text="PARTIAL proof: ordering keys depend on coordinates only (total, lexicographic, antisymmetric, transitive; UUID/data ignored); Hilbert and lexicographic orderings of two distinct points do not depend on the caller's order (also inside one grid cell); shuffle seed is order-free (N <= 3, bounded). Equality of the resulting cell sets is undecided.",
                 note=_NOTE),
-    "C16": dict(technique="deductive contracts: Kani on the three wrapping functions with f64::rem_euclid replaced by its assumed contract",
+    "C16": dict(technique="deductive contracts: Kani on the three wrapping functions with f64::rem_euclid replaced by its assumed contract; Kani K-slices on the periodic grid snap",
                 text="Proof of the wrapping contract for every f64 value, period and axis: result in [0, period), in-range values unchanged, idempotent, errors refuse and (bad configuration) leave the point untouched - for ToroidalSpace::wrap_coord / canonicalize_point and ToroidalModel::canonicalize_point_in_place (f64, f32). Congruence modulo the period rests on the assumed exactness of fmod; periodic image construction is undecided. Added: periodic (image-point) construction: per-axis grid snap and clamped hash perturbation keep every stored coordinate in [0, L) (K-slices front / clamp / back, all values; perturbation range for every index).",
                 note=_NOTE),
     "C19": dict(technique="deductive contracts: union of the no-panic obligations (overflow, bounds, unwrap, unreachable, debug_assert) of every function under contract",
